@@ -931,6 +931,11 @@ standardize() {
       result += "/" + components[i];
     }
   }
+  if (result.empty()) {
+    // A relative path that backs up exactly to where it started, like "a/..",
+    // refers to the current directory; an empty filename refers to nothing.
+    result = ".";
+  }
 
   (*this) = result;
 }
